@@ -237,7 +237,7 @@ def assign_case(draw, max_frames=12, max_centers=16, max_feat=4, md_share=4):
                 "centers_as": draw(st.sampled_from(["list", "list", "array", "tuple", "views", "data_itself"])),
                 "readonly": draw(st.sampled_from([False, False, True])),
                 "metric_style": draw(st.sampled_from(["fresh", "fresh", "owned_rows", "reused_buffer"]))}
-        numeric = draw(st.sampled_from(["plain"] * 5 + ["tiny", "offset", "near_tie"]))
+        numeric = draw(st.sampled_from(["plain"] * 5 + ["tiny", "offset", "near_tie", "near_tie"]))
         if numeric == "tiny" and dtype.startswith("float"):
             case["scale"] = draw(st.sampled_from([1e-9, 1e-10, 1e-11]))           # coordinates in metres
         elif numeric == "offset" and dtype == "float64":
@@ -245,7 +245,7 @@ def assign_case(draw, max_frames=12, max_centers=16, max_feat=4, md_share=4):
         elif numeric == "near_tie" and dtype != "float32":
             # two centers a, b and frames whose distances to them differ by one part in 1e5 .. 1e7 (exact in float64)
             # (also values beyond 2**24: exact in int32 / int64 / float64, not in float32)
-            L = draw(st.sampled_from([50000, 123457, 600000, 3000000, 30000000, 400000000]))
+            L = draw(st.sampled_from([50000, 123457, 600000, 3000000, 30000000, 30000001, 400000000, 400000003]))
             xs = [0, 2 * L + 1, L, L + 1] + [draw(st.integers(-L, 3 * L)) for _ in range(draw(st.integers(0, 4)))]
             case["X"] = [[x] + [0] * (f - 1) for x in xs]
             case["C"] = draw(st.sampled_from([[["row", 0], ["row", 1]], [["row", 1], ["row", 0]]]))
